@@ -9,6 +9,21 @@ import os
 import sys
 
 VERIF = os.path.dirname(os.path.dirname(os.path.abspath(__file__)))
+STEER_6 = ('{n} changes have already been proposed for this property by other developers (listed below). '
+           'Do NOT repeat them or close variants (in particular: no more log-level / DEBUG side effects, no more '
+           'caches keyed by path or name, no more __eq__/__hash__ rewrites). Look for what they have NOT touched: '
+           'degenerate inputs (empty model, empty graph, an attacker without entry points, an association type '
+           'that is never used, a language part that is empty), argument shapes a caller may legitimately use '
+           '(tuple / set / generator / dict view instead of list, bool or numpy-like ints, keyword vs positional), '
+           're-entrancy (the API called while the caller iterates over the very list it changes, e.g. '
+           '`for n in graph.nodes: graph.remove_node(n)`), the same file path written twice or read while stale, '
+           'paths with spaces / non-ASCII characters / upper-case extensions, objects that exist twice (two models '
+           'on one factory, two graphs on one model, two factories on one language graph, an object moved from one '
+           'container to another), boundary counts (exactly the maximum multiplicity, exactly one element, ids at 0 '
+           'and -1), error paths that clean up only partly, and code that is correct for coreLang but not for '
+           'languages with inheritance chains, abstract types, reflexive or same-named associations. Each of your '
+           'three changes should need a different kind of trigger.')
+
 STEER = ('{n} changes have already been proposed for this property by other developers (listed below). '
          'Do NOT repeat them or close variants. Look for what they have NOT touched: other functions and '
          'code paths that the property depends on indirectly (helpers in other modules, constructors, '
@@ -42,7 +57,7 @@ def main():
                 .replace('__ID__', pid).replace('__TITLE__', p['title'])
                 .replace('__STATEMENT__', p['statement']).replace('__QUANT__', p['quantifier']['text'])
                 .replace('__N__', '3'))
-        text += '\n' + STEER.format(n=len(prev)) + '\n' + '\n'.join('- ' + x for x in prev) + '\n'
+        text += '\n' + (STEER_6 if os.environ.get('SEED_STEER') == '6' else STEER).format(n=len(prev)) + '\n' + '\n'.join('- ' + x for x in prev) + '\n'
         os.makedirs(os.path.join(out, pid), exist_ok=True)
         with open(os.path.join(out, f'prompt-{pid}.txt'), 'w') as f:
             f.write(text)
